@@ -709,7 +709,7 @@ func runC09(c *mon.Ctx) {
 			c09concurrent(c, pool, rng)
 		}
 	})
-	for i, n := range []int{3, 4, 9, 33, 128, 300, 1025} {
+	for i, n := range []int{3, 4, 9, 33, 128, 256, 300, 1025} {
 		if !c.Mine(i) {
 			continue
 		}
